@@ -568,7 +568,7 @@ PARSE_RULE = ("PARSE: small emitted streams (1-3 channels, 8/16/24 bits, blocks 
 PROPS["C15"] = {
     "coq": "theories/Props/C15.v",
     "theorems": ["C15_number_parse", "C15_residual", "C15_residual_ops_bits", "C15_subframe", "C15_subframe_ops_bits",
-                 "C15_bytes_carry_the_bits", "C15_ideal_bits", "C15_frame", "C15_stream", "C15_encoded_stream", "C15_encoded_stream_lpc"],
+                 "C15_bytes_carry_the_bits", "C15_ideal_bits", "C15_frame", "C15_stream", "C15_encoded_stream", "C15_encoded_stream_lpc", "C15_encoded_stream_verifies"],
     "streams": [PARSE_STREAM], "rule": PARSE_RULE,
     "oracle": parse_oracle,
     "assumptions": ["PARTIAL: only the number coding is proved through the parser model; the whole-tree inverse is decided per run",
@@ -795,7 +795,7 @@ PROPS["C18"] = {
     "coq": "theories/Props/C18.v",
     "theorems": ["C18_total", "C18_residual", "C18_qparams_verifies", "C18_subframes", "C18_frame_verifies",
                  "C18_streaminfo_verifies", "C18_verified_subframe_serialises", "C18_residual_parses_back", "C18_subframe_parses_back",
-                 "C18_frame_parses_back", "C18_unknown_new_ok", "C18_stream_parses_back"],
+                 "C18_frame_parses_back", "C18_unknown_new_ok", "C18_stream_parses_back", "C18_frame_count_bits", "C18_stream_count_bits"],
     "streams": [CTOR_STREAM], "rule": CTOR_RULE,
     "oracle": ctor_oracle,
     "assumptions": ["PARTIAL: the serialisation and parse-back of frames, headers, stream info and metadata are validated by the "
